@@ -100,8 +100,10 @@ CLAIMED.update({
     "C10": sim("Theorems: a successful Update from the takeover path replaces only a live version read by the issuer, with takeover enabled and strictly lower stored "
                "priority; the regenerated comparison yields on equal priority and takeover needs the flag and a positive priority. Promptness (3H) and stability "
                "are decided by the monitor on fault-free traces with latency <= H/10.", "5.10 and 11", TECH),
-    "C11": sim("Theorem: the regenerated default grace period is max(3H, 5 s). Not-early / on-time demotion, the reconnect verification verdict and freedom from "
-               "deadlock/crash are decided by the monitor on connection-notification sequences around the grace boundary.", "5.11 and 11", TECH, category="other"),
+    "C11": sim("Theorems: the regenerated default grace period is max(3H, 5 s); the lock-order relation regenerated from the source (which locks may be held while "
+               "which lock is acquired, over the call graph) has no cycle and no re-acquisition of a held lock - the deadlock-freedom clause, decided by computation "
+               "over the finite generated relation. Not-early / on-time demotion, the reconnect verification verdict and crash freedom are decided by the monitor on "
+               "connection-notification sequences around the grace boundary (incl. failing verification reads).", "5.11 and 11", TECH),
     "C12": sim("Theorems: the regenerated threshold comparison first holds at exactly the configured count (default 3 when <= 0, always >= 1) and the check context "
                "expires within 100 ms. Count restart per term / on a healthy result, the callback and continuation as follower are decided by the monitor on health "
                "scripts x thresholds x several terms.", "5.12 and 11", TECH),
@@ -114,7 +116,20 @@ CLAIMED.update({
                "checked on every simulated trace. No theorem.", "5.19 and 11", TECH, category="other"),
 })
 
-NOT_CLAIMED = {"C20": "lock-discipline theorem and race-detector harness not built yet (DESIGN.md 5.20); no executable model exhibits a Go memory-model race"}
+NOT_CLAIMED = {}
+CLAIMED["C20"] = dict(
+    text="Theorems (Coq): (1) in every execution that respects the semantics of sync.Mutex/RWMutex, two accesses by different goroutines made under a common lock "
+         "that the writing side holds exclusively are separated by a release of that lock (hence ordered by happens-before); (2) the access table regenerated from "
+         "the source on every run - every read/write of a plain field of kvElection, disconnectHandler, natsConnectionMonitor, CircuitBreaker with the locks "
+         "certainly held there, over intraprocedural lock regions and call-graph summaries - satisfies that premise for every conflicting pair except on the field "
+         "kvElection.ctx (known finding D15, 26 function pairs listed); (3) the regenerated lock-order relation is acyclic. The race detector is run on a "
+         "concurrent API hammer in real time as the search for races the table cannot see (captured locals, user objects).",
+    design_ref="5.20 and 11.6",
+    note="Trusted: Coq kernel (no axioms), the translator's syntactic lock-region analysis (receiver-rooted field chains, no type checker; goroutine bodies, timer "
+         "callbacks, exported methods and registered handlers start with no lock), the restriction to the four structs, the Go race detector. Partial by nature: "
+         "no executable functional model exhibits a Go memory-model race; the theorem covers the lock discipline only.",
+    technique="Coq proof of lockset soundness + computation over the translator-regenerated access table and lock-order relation; Go race detector on a concurrent API hammer",
+)
 
 checks = []
 for p in props:
